@@ -57,6 +57,16 @@ def work(ctx, tier):
         if k % 3 == 0:
             sc["cfg"]["no_retry"] = True
         sc["fault"] = {"kind": "cb", "cb": rng.choice(["astart", "aend", "aend", "abort_if"]), "at": rng.choice([0, 1, 2, "always"]), "exc": rng.choice(["RuntimeError", "ValueError", "KeyError"])}
+        if k % 5 == 3:
+            # a caller callback of the backoff phase gives up with AbortRetryError (the documented way to stop retrying from inside user
+            # code): however the run delivers it, the call was aborted, not failed
+            sc["fault"] = {"kind": "cb", "cb": rng.choice(["sleeper", "handler", "strategy", "aend", "sleeper"]), "at": rng.choice([0, 0, 1]), "exc": "AbortRetryError"}
+            if sc["place"].get("handler", "none") == "none" and sc["fault"]["cb"] == "handler":
+                sc["place"]["handler"] = "call"
+                for c in sc["calls"]:
+                    c["handler"] = ["sleep"]
+            if sc["place"].get("sleeper") == "none":
+                sc["place"]["sleeper"] = "call"
         if k % 5 == 0:
             # an interrupt (KeyboardInterrupt / SystemExit / CancelledError) arriving inside an observability hook
             sc["fault"] = {"kind": "hook", "hook": rng.choice(["metric", "log"]), "at": rng.randint(0, 6), "exc": rng.choice(["kbd", "sysexit", "cancel"])}
@@ -87,6 +97,15 @@ def work(ctx, tier):
                     continue
                 n = len(spy) - 1
                 ctx.cnt["attempt_hook_fault_calls"] += 1
+                if n == 1 and sc["fault"].get("exc") == "AbortRetryError":
+                    kind, val = rec.final
+                    aborted = (kind == "return" and getattr(getattr(val, "stop_reason", None), "value", None) == "ABORTED") or (kind == "raise" and type(val).__name__ == "AbortRetryError")
+                    vv = View(rec, sc)
+                    if aborted and vv.segs and vv.segs[-1].kind in ("exc", "res"):
+                        # (a hook that raises after the operation has SUCCEEDED is not an aborted operation: not judged here)
+                        ctx.cnt["calls_aborted_from_inside_a_backoff_callback"] += 1
+                        if spy[1][0] != "br.cancel":
+                            ctx.viol("aborted-call-recorded-as-" + spy[1][0][3:], f"[{e} call#{rec.idx}] {sc['fault']['cb']} raised AbortRetryError and the run ended aborted ({kind} {val!r}), yet the breaker was told {spy[1]}", common.payload(sc, e, rec.idx))
                 if n != 1:
                     ctx.viol("multiple-records" if n > 1 else "no-record", f"[{e} call#{rec.idx}] {sc['fault'].get('cb') or sc['fault'].get('hook')} raised {sc['fault']['exc']}; admitted call reported {n} times: {spy[1:]}", common.payload(sc, e, rec.idx))
                 elif sc["fault"].get("cb") == "astart" and sc["fault"]["at"] == "always" and not sc["cfg"].get("no_retry"):
